@@ -57,6 +57,102 @@ Definition lane_replace (v : list N) (i : nat) (x : N) : list N := upd i x v.
 Definition lanes_ok (w : N) (n : nat) (v : list N) : bool :=
   Nat.eqb (length v) n && forallb (fun x => x <? 2 ^ w) v.
 
+(** * The public surface of the crate and the meaning of every method
+
+    [a]: lanes of [self] (u32x4x4: its 16 lanes, part 0 first); [b]: lanes of
+    the second vector operand, or the contents of the slice argument, or
+    (replace) the one-element list holding the new value; [i]: the scalar
+    argument (rotation amount, lane index, splat value).  The result is the
+    list of lanes of the returned / updated vector, the slice after a store,
+    or the one-element list of an extracted word. *)
+Inductive ty := U32x4 | U64x4 | U128x1 | U128x2 | U32x4x4.
+Inductive op :=
+| ONew | ORotr | OLoad | OStore | OXorStore | OSplat | OReplace | OExtract | OIntoInner
+| OSwap1 | OSwap2 | OSwap4 | OSwap8 | OSwap16 | OSwap32 | OSwap64
+| OAndNot | ONot | OAddAssign | OXorAssign | OAdd | OXor | OOr | OAnd
+| ORotWords | OSplatRotr | OIntoParts.
+
+Definition width (t : ty) : N :=
+  match t with U32x4 | U32x4x4 => 32 | U64x4 => 64 | U128x1 | U128x2 => 128 end.
+Definition nlanes (t : ty) : nat :=
+  match t with U32x4 | U64x4 => 4 | U128x1 => 1 | U128x2 => 2 | U32x4x4 => 16 end.
+
+(** which methods / operator impls each type has *)
+Definition has_op (t : ty) (o : op) : bool :=
+  match t, o with
+  | (U32x4 | U64x4), (ONew | ORotr | OLoad | OStore | OSplat | OReplace | OExtract | OAddAssign
+                      | OXorAssign | OAdd | OXor | OOr | OAnd | ORotWords | OSplatRotr) => true
+  | U128x1, (ONew | ORotr | OLoad | OXorStore | OIntoInner | OSwap1 | OSwap2 | OSwap4 | OSwap8
+             | OSwap16 | OSwap32 | OSwap64 | OAndNot | OExtract | OAddAssign | OXorAssign | OXor
+             | OAnd | ONot) => true
+  | U128x2, (ONew | ORotr | OLoad | OXorStore | OExtract | OAndNot | OAddAssign | OXorAssign
+             | OAnd | ONot | OOr) => true
+  | U32x4x4, (ONew | OSplat | OIntoParts | OXor | OOr | OAnd | OAdd | OXorAssign | OAddAssign
+              | ORotWords | OSplatRotr) => true
+  | _, _ => false
+  end.
+
+(** rotation of the words inside every group of four lanes *)
+Definition words_rotr_groups (i : nat) (v : list N) : list N :=
+  map (fun j => nth (4 * (j / 4) + (j mod 4 + (4 - i mod 4)) mod 4)%nat v 0) (seq 0 (length v)).
+
+Definition spec_op (t : ty) (o : op) (a b : list N) (i : N) : list N :=
+  let w := width t in
+  match o with
+  | ONew | OIntoInner | OIntoParts => a
+  | ORotr => match t with
+             | U32x4 | U64x4 => lanes_zip (fun x r => lane_rotr w (r mod w) x) a b
+             | _ => lanes_map (lane_rotr w (i mod w)) a
+             end
+  | OLoad => b
+  | OStore => a
+  | OXorStore => lanes_zip lane_xor b a
+  | OSplat => match t with U32x4x4 => a ++ a ++ a ++ a | _ => lanes_splat (nlanes t) i end
+  | OReplace => lane_replace a (N.to_nat i) (nth 0 b 0)
+  | OExtract => [lane_extract a (N.to_nat i)]
+  | OSwap1 => lanes_map (lane_swap w 1) a
+  | OSwap2 => lanes_map (lane_swap w 2) a
+  | OSwap4 => lanes_map (lane_swap w 4) a
+  | OSwap8 => lanes_map (lane_swap w 8) a
+  | OSwap16 => lanes_map (lane_swap w 16) a
+  | OSwap32 => lanes_map (lane_swap w 32) a
+  | OSwap64 => lanes_map (lane_swap w 64) a
+  | OAndNot => lanes_zip (lane_andnot w) a b
+  | ONot => lanes_map (lane_not w) a
+  | OAddAssign | OAdd => lanes_zip (lane_add w) a b
+  | OXorAssign | OXor => lanes_zip lane_xor a b
+  | OOr => lanes_zip lane_or a b
+  | OAnd => lanes_zip lane_and a b
+  | ORotWords => match t with
+                 | U32x4x4 => words_rotr_groups (N.to_nat i) a
+                 | _ => words_rotr (N.to_nat i) a
+                 end
+  | OSplatRotr => lanes_map (lane_rotr w i) a
+  end.
+
+(** the operands the property quantifies over: the method exists, every
+    vector / slice has exactly the type's lanes with in-range words, scalar
+    arguments fit their type, lane indices are below the lane count, word
+    rotations are 0..3, splat rotation amounts are 1..bits-1 *)
+Definition in_domain (t : ty) (o : op) (a b : list N) (i : N) : bool :=
+  let w := width t in
+  let n := nlanes t in
+  has_op t o &&
+  match o with
+  | ONew | OIntoInner | OIntoParts | ONot
+  | OSwap1 | OSwap2 | OSwap4 | OSwap8 | OSwap16 | OSwap32 | OSwap64 => lanes_ok w n a
+  | ORotr => lanes_ok w n a &&
+             match t with U32x4 | U64x4 => lanes_ok w n b | _ => i <? 2 ^ w end
+  | OLoad => lanes_ok w n b
+  | OStore | OXorStore => lanes_ok w n a && lanes_ok w n b
+  | OSplat => match t with U32x4x4 => lanes_ok 32 4 a | _ => i <? 2 ^ w end
+  | OReplace => lanes_ok w n a && lanes_ok w 1 b && (i <? N.of_nat n)
+  | OExtract => lanes_ok w n a && (i <? N.of_nat n)
+  | OAndNot | OAddAssign | OXorAssign | OAdd | OXor | OOr | OAnd => lanes_ok w n a && lanes_ok w n b
+  | ORotWords => lanes_ok w n a && (i <? 4)
+  | OSplatRotr => lanes_ok w n a && (1 <=? i) && (i <? w)
+  end.
+
 (** anchors: the definitions mean what the comments say on familiar values *)
 Example rotr_anchor : lane_rotr 32 8 0x11223344 = 0x44112233. Proof. reflexivity. Qed.
 Example rotr_anchor64 : lane_rotr 64 1 1 = 0x8000000000000000. Proof. reflexivity. Qed.
@@ -70,3 +166,5 @@ Example words_rotr_anchor : words_rotr 1 [10; 11; 12; 13] = [13; 10; 11; 12]. Pr
 Example words_rotr_anchor3 : words_rotr 3 [10; 11; 12; 13] = [11; 12; 13; 10]. Proof. reflexivity. Qed.
 Example not_anchor : lane_not 32 0x0000ffff = 0xffff0000. Proof. reflexivity. Qed.
 Example andnot_anchor : lane_andnot 8 0x0f 0x3c = 0x30. Proof. reflexivity. Qed.
+Example words_rotr_groups_anchor :
+  words_rotr_groups 1 [0;1;2;3; 4;5;6;7] = [3;0;1;2; 7;4;5;6]. Proof. reflexivity. Qed.
